@@ -178,7 +178,8 @@ func (fs *Filespace) Writer(destPath string) (writer filesystem.Writer, err erro
 		if file, ok = node.(*File); !ok {
 			return nil, goaterr.Errorf("Node %s must be a file", destPath)
 		}
-		file.time = time.Now()
+		// a writer replaces the old content (setData updates the modification time too)
+		file.setData([]byte{})
 	}
 	return NewFileHandler(file), nil
 }
